@@ -1,6 +1,6 @@
 """C16 — configuration precedence: command line > test case > document defaults > format."""
 from ..cfgq import aggregates, stmt_loc
-from ..facts import AnchorError, Origins, callee_name, method_name, peel, strip_mods
+from ..facts import AnchorError, Origins, callee_name, method_name, mname, peel, strip_mods
 
 
 def arg_field(node, argn=None):
@@ -279,9 +279,81 @@ def r16_4(ctx):
     ctx.check(len(uses) >= 1, "cram-applies-default", cp.where(), "CramParser::parse applies TestCaseConfig::default_cram()")
 
 
+# CLI layer: which command line flag may decide which configuration key (confirmed by reading the clap definitions
+# in src/bin/commands/root.rs, test.rs, update.rs, create.rs; one line per key)
+CLI_KEY_FLAGS = {
+    "output_stream": {"no_combine_output", "combine_output"},      # --(no-)combine-output
+    "keep_crlf": {"no_keep_output_crlf", "keep_output_crlf"},      # --(no-)keep-output-crlf
+    "shell": {"shell"},                                            # --shell
+    "total_timeout": {"timeout_seconds"},                          # --timeout-seconds
+    "append": {"append_test_file_paths"},                          # --append-test-file-paths
+    "prepend": {"prepend_test_file_paths"},                        # --prepend-test-file-paths
+    "timeout": {"timeout_seconds", "timeout"},
+    "skip_document_code": {"skip_document_code"},
+    "strip_ansi_escaping": {"strip_ansi_escaping", "no_strip_ansi_escaping"},
+    "detached": set(), "wait": set(), "environment": set(), "defaults": set(),
+}
+
+
+def _controlling_fields(f, o, bb):
+    """self-fields whose branch decides whether block bb is reached (control dependence, loops cut)"""
+    from ..cfgq import switches, bool_edges, cond_tree, variant_edges
+    back = f.back_edges()
+    out = set()
+    for sb, st in switches(f):
+        tree = peel(cond_tree(f, sb, o))
+        name = None
+        for n in tree.walk():
+            if n.kind == "field" and n.kids and peel(n.kids[0]).kind == "arg" and peel(n.kids[0]).a == 1:
+                name = n.a
+        if name is None:
+            continue
+        succs = f.succ(sb)
+        reach = [bb in f.reachable(s2, removed_edges=back) or s2 == bb for s2 in succs]
+        if any(reach) and not all(reach):
+            out.add(name)
+    return out
+
+
+def r16_5(ctx):
+    prog = ctx.prog
+    fns = [b for b in prog.bodies if b.promoted is None and b.crate.startswith("scrut-bin") and b.kind == "AssocFn"
+           and b.name in ("to_testcase_config", "to_document_config")]
+    n = 0
+    for f in fns:
+        o = Origins(f)
+        for bi, blk in enumerate(f.blocks):
+            if blk["cleanup"]:
+                continue
+            stores = []
+            for si, st in enumerate(blk["stmts"]):
+                if st["k"] == "assign" and st["lhs"]["p"]:
+                    names = [p["n"] for p in st["lhs"]["p"] if isinstance(p, dict) and "n" in p]
+                    base = f.lty(st["lhs"]["l"])
+                    if names and ("TestCaseConfig" in base or "DocumentConfig" in base) and names[-1] in CLI_KEY_FLAGS:
+                        stores.append((si, names[-1]))
+            t = blk["term"]
+            if t["k"] == "call" and mname(t) in ("Extend::extend", "Vec::extend", "Vec::push"):
+                nm = f.arg_name(t["args"][0])
+                if "." in nm and nm.split(".")[-1] in CLI_KEY_FLAGS and nm.split(".")[0] == "config":
+                    stores.append(("term", nm.split(".")[-1]))
+            for si, key in stores:
+                n += 1
+                ctl = _controlling_fields(f, o, bi)
+                extra = ctl - CLI_KEY_FLAGS[key]
+                fn = f.npath.split("::")[-3] + "::" + f.name if f.npath.count("::") >= 2 else f.name
+                ctx.check(not extra, "cli-key:%s:%s" % (fn, key), stmt_loc(f, bi, si),
+                          "the command-line layer sets `%s` only when its own flag(s) %s were given" % (key, sorted(ctl) or "(unconditional copy of the flag value)"),
+                          "the command-line layer sets `%s` under flag(s) %s that are not this key's own (%s): a value the user did not pass on the command line then overrides "
+                          "the test case's and the document's configuration" % (key, sorted(extra), sorted(CLI_KEY_FLAGS[key])))
+    if n < 6:
+        ctx.bad("cli-stores-floor", "-", "only %d command-line layer stores analysed (6 confirmed by reading)" % n)
+
+
 def run(ctx):
     ctx.run_rule("R16.1", "with_defaults_from merges every field with an operator whose priority side is the receiver: or/or_else (receiver wins), "
                  "defaults.chain(self).collect() for maps (later wins), extend for lists (both kept) [E-FLOW]", r16_1, floor=14)
     ctx.run_rule("R16.2", "with_overrides_from(o) == o.with_defaults_from(self) in both config types [E-FLOW]", r16_2, floor=2)
     ctx.run_rule("R16.3", "layer order at every merge call site in lib+bin: CLI > TESTCASE > DOC > FORMAT [E-SITE]", r16_3, floor=9)
     ctx.run_rule("R16.4", "format default tables: markdown {stdout, skip 80}, cram {combined, keep_crlf, skip 80} [E-TABLE]", r16_4, floor=4)
+    ctx.run_rule("R16.5", "who-may-set in the command-line layer: each key is decided only by its own flag(s) (control dependence of every store in to_*_config) [E-SITE]", r16_5, floor=6)
